@@ -180,7 +180,7 @@ CLAIMED = {
             "Trusted: TLC, the harness's zone readers, witnesses verified by multiplication. Not settled by the wording and "
             "checked only for shape and distance: day/week steps > 1 below a larger unit, zoned time units re-rounded "
             "across a day boundary, half-even ties (total vs. remainder), candidates beyond range limits (may be refused). "
-            "D36-D41 were found by this check and repaired; D44 (balancing at a clamped month end, TC39-conformant) is a known finding (KNOWN_FINDINGS.txt).",
+            "D36-D41 and D44 were found by this check and repaired (KNOWN_FINDINGS.txt).",
             "TLA+ relational span semantics evaluated by TLC over implementation traces; Round.tla model-checked", "DESIGN.md §5 C11"),
     "C18": ("model_checking",
             "Equality of the loading paths is decided by holding every path to the same specification of the same data: the "
